@@ -669,6 +669,83 @@ def fold_loops(fi, picks):
     return f2
 
 
+def preinline_helpers(eng, fi, ctx):
+    """a copy of the function in which statement-level calls  self.helper(a, b)  of helpers WITHOUT contract that
+    contain loops are replaced by the helper's body (parameters replaced by the argument names, the helper's other
+    locals renamed): a loop that was moved into a new helper is then a loop of the body again and meets its invariant.
+    Returns None if there is nothing to inline."""
+    import copy
+    from .frontend import mangle
+    repo = eng.repo
+    cls = ctx or fi.cls
+    if cls is None or cls not in repo.classes:
+        return None
+    node = copy.deepcopy(fi.node)
+    changed = [False]
+    selfname = node.args.args[0].arg if node.args.args else "self"
+
+    def expand(stmt):
+        if not (isinstance(stmt, ast.Expr) and isinstance(stmt.value, ast.Call) and isinstance(stmt.value.func, ast.Attribute)
+                and isinstance(stmt.value.func.value, ast.Name) and stmt.value.func.value.id == selfname
+                and not stmt.value.keywords and all(isinstance(a, ast.Name) for a in stmt.value.args)):
+            return None
+        name = stmt.value.func.attr
+        callee = repo.find_method(cls, name) or repo.find_method(cls, mangle(fi.cls, name) if fi.cls else name)
+        if callee is None or callee.kind != "method" or callee.node.decorator_list or not _loops_of(callee.node):
+            return None
+        if any(k.split("@")[0].endswith("." + callee.name) and k.split(".")[0] in repo.mro(cls) for k in CONTRACTS):
+            return None
+        if any(isinstance(n, ast.Return) and n.value is not None for n in ast.walk(callee.node)) or \
+                any(isinstance(n, (ast.Yield, ast.YieldFrom)) for n in ast.walk(callee.node)):
+            return None
+        params = [a.arg for a in callee.node.args.args]
+        if len(params) - 1 != len(stmt.value.args) or callee.node.args.vararg or callee.node.args.kwarg:
+            return None
+        # (a helper that rebinds one of its parameters would rebind the caller's variable once inlined)
+        if any(isinstance(n, ast.Name) and isinstance(n.ctx, (ast.Store, ast.Del)) and n.id in params for n in ast.walk(callee.node)):
+            return None
+        if any(isinstance(n, (ast.FunctionDef, ast.Lambda, ast.Global, ast.Nonlocal)) for b in callee.node.body for n in ast.walk(b)):
+            return None
+        mapping = {params[0]: selfname}
+        mapping.update({p_: a.id for p_, a in zip(params[1:], stmt.value.args)})
+        body = copy.deepcopy([b for b in callee.node.body
+                              if not (isinstance(b, ast.Expr) and isinstance(b.value, ast.Constant))])
+        locals_ = {n.id for b in body for n in ast.walk(b) if isinstance(n, ast.Name) and isinstance(n.ctx, ast.Store)}
+        for l in locals_:
+            if l not in mapping:
+                mapping[l] = f"_inl_{callee.name.strip('_')}_{l}"
+        for b in body:
+            for n in ast.walk(b):
+                if isinstance(n, ast.Name) and n.id in mapping:
+                    n.id = mapping[n.id]
+            ast.copy_location(b, stmt)
+        # a bare `return` of the helper would leave the CALLER when inlined: only helpers that fall off their end
+        if any(isinstance(n, ast.Return) for b in body for n in ast.walk(b)):
+            return None
+        changed[0] = True
+        return body
+
+    def walk(block):
+        i = 0
+        while i < len(block):
+            st_ = block[i]
+            new = expand(st_)
+            if new is not None:
+                block[i:i + 1] = new
+                i += len(new)
+                continue
+            for fld in ("body", "orelse", "finalbody"):
+                sub = getattr(st_, fld, None)
+                if isinstance(sub, list) and sub and isinstance(sub[0], ast.stmt):
+                    walk(sub)
+            i += 1
+    walk(node.body)
+    if not changed[0]:
+        return None
+    ast.fix_missing_locations(node)
+    return FuncInfo(node, fi.module, fi.cls, fi.kind, fi.path)
+
+
 def verify_one(eng, key, ctx=None, timeout_ms=30000, alias=None):
     """verify contract `key`; if the body has MORE loops than the contract annotates (a comprehension was rewritten as
     an explicit accumulator loop), the surplus is looked for among the loops of the shape `X = []; for ..: X.append(E)` /
@@ -700,6 +777,16 @@ def verify_one(eng, key, ctx=None, timeout_ms=30000, alias=None):
                 return r
             if len(cands) == d:
                 return r          # the only possible reading: its verdict (failed obligations included) stands
+    if d < 0:
+        # a loop that was moved into a new helper without contract: put the helper's body back (at the AST level) and
+        # see whether the loops then match
+        fi2 = preinline_helpers(eng, fi, ctx)
+        if fi2 is not None and len(_loops_of(fi2.node)) == want:
+            r = verify_renamed(eng, key, ctx, timeout_ms, alias, fi2)
+            if not r.unsupported and not r.error and r.obligations and all(o["status"] == "proved" for o in r.obligations):
+                r.lib_used = sorted(set(r.lib_used) | {f"{key}: a helper without contract that contains a loop was put back into "
+                                                       "the body (its parameters replaced by the argument names) before verification"})
+                return r
     if d < 0:
         # FEWER loops than annotated (a loop was rewritten as a comprehension, or removed): the loops that are left keep
         # their order; which annotated loops they are is again a checked guess
